@@ -532,13 +532,20 @@ func (s *inProcessServerStream) setHeader(md metadata.MD, send bool) error {
 		s.headers[k] = append(s.headers[k], v...)
 	}
 	if send {
-		return s.sendHeadersLocked()
+		return s.sendHeadersLocked(true)
 	}
 	return nil
 }
 
-func (s *inProcessServerStream) sendHeadersLocked() error {
-	if len(s.headers) > 0 {
+// sendHeadersLocked ends the header phase. A header frame is always written
+// when the handler asked for the headers to be sent (explicit), even if there
+// are none: a client waiting in Header() must learn that they are final
+// without having to wait for the first response message.
+func (s *inProcessServerStream) sendHeadersLocked(explicit bool) error {
+	if len(s.headers) > 0 || explicit {
+		if s.headers == nil {
+			s.headers = metadata.MD{}
+		}
 		if err := writeMessage(s.ctx, nil, s.responses, frame{headers: s.headers}); err != nil {
 			return err
 		}
@@ -603,7 +610,7 @@ func (s *inProcessServerStream) SendMsg(m interface{}) error {
 		return io.EOF
 	}
 	if s.state == streamStateHeaders {
-		if err := s.sendHeadersLocked(); err != nil {
+		if err := s.sendHeadersLocked(false); err != nil {
 			return err
 		}
 	}
